@@ -1,4 +1,5 @@
 import JominiModel.Proofs.TextTapeFaithful2
+import JominiModel.Proofs.TextTapeTotal
 /-
 C01 growth, fragment 3: objects, arrays (of scalars, objects, arrays) and empty containers of any
 depth, under any valid layout.
@@ -79,6 +80,16 @@ theorem step_key_ghost {n : Nat} {st : St} {g gc Y : Bytes} (hst : st.state = .k
   simp only [step, skipWs_blank hg, skipWs_cons _ blank_open (by decide), stepAt, hst]
   simp [stepKey, skipWs_blank hgc, skipWs_cons Y blank_close (by decide)]
 
+/-- Key sees a non-empty `{` right behind an unquoted value: that value is the header of the
+container. -/
+theorem step_key_header {n : Nat} {st : St} {T : List Tok} {sl : Slice} {gb X : Bytes} {c2 : UInt8} {r2 : Bytes}
+    (hst : st.state = .key) (hT : st.tape = T ++ [.unquoted sl]) (hg : Blank gb)
+    (hsk : skipWs X = some (c2 :: r2)) (hc2 : c2 ≠ 125) :
+    step n st (gb ++ 123 :: X) =
+      .cont { st with tape := T ++ [.header sl, .array 0 false], state := .parseOpen } (c2 :: r2) := by
+  simp only [step, skipWs_blank hg, skipWs_cons X blank_open (by decide), stepAt, hst]
+  simp [stepKey, hsk, hc2, hT]
+
 theorem braced_open {v : JVal} {a : Bytes} (hc : v.isBraced) (hv : JValidV v a) :
     ∃ g X, jrenderV v = g ++ 123 :: X ∧ Blank g := by
   cases v with
@@ -87,6 +98,21 @@ theorem braced_open {v : JVal} {a : Bytes} (hc : v.isBraced) (hv : JValidV v a) 
   | obj g g0 k g1 o v rest gc => simp only [JValidV] at hv; exact ⟨g, _, rfl, hv.1⟩
   | arrS g g0 s0 rest gc => simp only [JValidV] at hv; exact ⟨g, _, rfl, hv.1⟩
   | arrC g first rest gc => simp only [JValidV] at hv; exact ⟨g, _, rfl, hv.1⟩
+  | ghostIn g b1 b2 v => simp only [JValidV] at hv; exact ⟨g, _, rfl, hv.1⟩
+
+/-- a braced value is its blanks, `{`, and its inside. -/
+theorem render_inner {v : JVal} (hc : v.isBraced) : jrenderV v = v.gap ++ 123 :: jinner v := by
+  cases v <;> simp [JVal.isBraced] at hc <;> simp [jrenderV, jinner, JVal.gap]
+
+theorem braced_gap {v : JVal} {a : Bytes} (hc : v.isBraced) (hv : JValidV v a) : Blank v.gap := by
+  cases v <;> simp [JVal.isBraced] at hc <;> simp only [JValidV] at hv <;> exact hv.1
+
+/-- ParseOpen sees `{ }`: a ghost object at the start of a container, skipped. -/
+theorem step_parseopen_ghost {n : Nat} {st : St} {b1 b2 Y : Bytes} (hst : st.state = .parseOpen)
+    (h1 : Blank b1) (h2 : Blank b2) :
+    step n st (b1 ++ 123 :: (b2 ++ 125 :: Y)) = .cont st Y := by
+  simp only [step, skipWs_blank h1, skipWs_cons _ blank_open (by decide), stepAt, hst]
+  simp [stepParseOpen, skipWs_blank h2, skipWs_cons Y blank_close (by decide)]
 
 theorem closeState_append {T R : List Tok} {P : Nat} (h : P < T.length) :
     closeState (T ++ R)[P]? = closeState T[P]? := by
@@ -172,6 +198,7 @@ theorem len_jtapeV : ∀ (v : JVal) (b : Nat) (a : Bytes), (jtapeV v b a).length
   | .arrC _ first rest _, b, a => by
     simp only [jtapeV, jcntV, List.length_append, List.length_cons, List.length_nil, len_jtapeV first, len_jtapeVs rest]
     try omega
+  | .ghostIn _ _ _ v, b, a => by simp only [jtapeV, jcntV, len_jtapeV v]
 theorem len_jtapeF : ∀ (fs : JFields) (b : Nat) (a : Bytes), (jtapeF fs b a).length = jcntF fs
   | .nil, _, _ => by simp [jtapeF, jcntF]
   | .cons _ _ _ o v rest, b, a => by
@@ -181,6 +208,9 @@ theorem len_jtapeF : ∀ (fs : JFields) (b : Nat) (a : Bytes), (jtapeF fs b a).l
     simp only [jtapeF, jcntF, List.length_append, List.length_cons, List.length_nil, len_jtapeV v, len_jtapeF rest]
     try omega
   | .ghost _ _ rest, b, a => by simp only [jtapeF, jcntF, len_jtapeF rest]
+  | .consHdr _ _ _ o _ _ body rest, b, a => by
+    simp only [jtapeF, jcntF, List.length_append, List.length_cons, List.length_nil, len_jtapeV body, len_jtapeF rest]
+    try omega
 theorem len_jtapeVs : ∀ (vs : JVals) (b : Nat) (a : Bytes), (jtapeVs vs b a).length = jcntVs vs
   | .nil, _, _ => by simp [jtapeVs, jcntVs]
   | .cons v rest, b, a => by
@@ -215,6 +245,9 @@ theorem head_jrenderV (v : JVal) (after Z : Bytes) (hv : JValidV v after) :
   | arrC g first rest gc =>
     simp only [JValidV] at hv
     simp only [jrenderV, List.append_assoc, List.cons_append]; exact hb _ hv.1
+  | ghostIn g b1 b2 v =>
+    simp only [JValidV] at hv
+    simp only [jrenderV, List.append_assoc, List.cons_append]; exact hb _ hv.1
 
 /-- a non-empty container starts with blanks and `{`. -/
 theorem container_open {v : JVal} {a : Bytes} (hc : v.isContainer) (hv : JValidV v a) :
@@ -225,6 +258,7 @@ theorem container_open {v : JVal} {a : Bytes} (hc : v.isContainer) (hv : JValidV
   | obj g g0 k g1 o v rest gc => simp only [JValidV] at hv; exact ⟨g, _, rfl, hv.1⟩
   | arrS g g0 s0 rest gc => simp only [JValidV] at hv; exact ⟨g, _, rfl, hv.1⟩
   | arrC g first rest gc => simp only [JValidV] at hv; exact ⟨g, _, rfl, hv.1⟩
+  | ghostIn g b1 b2 v => simp only [JValidV] at hv; exact ⟨g, _, rfl, hv.1⟩
 
 /-- …and what follows the `{` is not a `}`. -/
 theorem container_head {v : JVal} {a : Bytes} (hc : v.isContainer) (hv : JValidV v a) (W : Bytes) :
@@ -253,6 +287,11 @@ theorem container_head {v : JVal} {a : Bytes} (hc : v.isContainer) (hv : JValidV
     rw [hr]
     simp only [List.append_assoc, List.cons_append]
     exact ⟨_, by rw [skipWs_blank hg', skipWs_cons _ blank_open (by decide)], by decide⟩
+  | ghostIn g b1 b2 v =>
+    simp only [JValidV] at hv
+    refine ⟨g, _, by simp only [jrenderV, List.append_assoc, List.cons_append]; rfl, hv.1, 123,
+      b2 ++ 125 :: (jinner v ++ W), ?_, by decide⟩
+    rw [skipWs_blank hv.2.1, skipWs_cons _ blank_open (by decide)]
 
 structure Ctx3 (st : St) : Prop where
   mixed : st.mixed = false
@@ -299,6 +338,7 @@ theorem skipWs_jrenderV_some {v : JVal} {a : Bytes} (hv : JValidV v a) (W : Byte
   | obj g g0 k g1 o v rest gc => simp only [JValidV] at hv; simpa [jrenderV] using ho _ hv.1
   | arrS g g0 s0 rest gc => simp only [JValidV] at hv; simpa [jrenderV] using ho _ hv.1
   | arrC g first rest gc => simp only [JValidV] at hv; simpa [jrenderV] using ho _ hv.1
+  | ghostIn g b1 b2 v => simp only [JValidV] at hv; simpa [jrenderV] using ho _ hv.1
 
 theorem skipWs_elems_some {vs : JVals} {a : Bytes} (hv : JValidVs vs a) {gc : Bytes} (hgc : Blank gc) (Y : Bytes) :
     ∃ d2, skipWs (jrenderVs vs ++ (gc ++ 125 :: Y)) = some d2 := by
@@ -450,6 +490,25 @@ theorem jrun_V (n : Nat) : ∀ (v : JVal) (after : Bytes) (fuel : Nat) (st : St)
     rw [List.set_append_right _ _ (Nat.le_refl _)]
     simp only [Nat.sub_self, List.set_cons_zero, List.append_assoc, List.cons_append]
     simp only [Nat.add_assoc, Nat.add_comm, Nat.add_left_comm]
+  | .ghostIn g b1 b2 v, after, fuel, st, hv, hst, hc, hne => by
+    simp only [JValidV] at hv
+    obtain ⟨hg, h1, h2, hbr, _, hvv⟩ := hv
+    have hsteps : 1 ≤ jstepsV v := by cases v <;> simp [JVal.isBraced] at hbr <;> simp [jstepsV] <;> omega
+    have hfuel : fuel + jstepsV (.ghostIn g b1 b2 v) = ((fuel + jstepsV v - 1) + 1) + 1 := by
+      simp only [jstepsV]; omega
+    rw [hfuel]
+    simp only [jrenderV, List.append_assoc, List.cons_append, List.nil_append]
+    rw [run_cont (step_open hst hg)]
+    rw [run_cont (step_parseopen_ghost rfl h1 h2)]
+    -- from here on the parser is where it would be behind the `{` of `v` itself
+    have hback := run_cont (n := n) (m := fuel + jstepsV v - 1) (step_open (X := jinner v ++ after) hst
+      (braced_gap hbr hvv))
+    rw [← hback]
+    have hr : v.gap ++ 123 :: (jinner v ++ after) = jrenderV v ++ after := by
+      rw [render_inner hbr]; simp
+    rw [hr, show fuel + jstepsV v - 1 + 1 = fuel + jstepsV v by omega]
+    rw [jrun_V n v after fuel st hvv hst hc hne]
+    simp only [jtapeV]
 theorem jrun_F (n : Nat) : ∀ (fs : JFields) (after : Bytes) (fuel : Nat) (st : St),
     JValidF fs after → st.state = .key → Ctx3 st →
     run n (fuel + jstepsF fs) st (jrenderF fs ++ after) =
@@ -517,6 +576,64 @@ theorem jrun_F (n : Nat) : ∀ (fs : JFields) (after : Bytes) (fuel : Nat) (st :
     rw [run_cont (step_key_ghost hst hv.1 hv.2.1)]
     rw [jrun_F n rest after _ _ hv.2.2 hst hc]
     simp only [jtapeF]
+  | .consHdr g0 k g1 o gh h body rest, after, fuel, st, hv, hst, hc => by
+    simp only [JValidF] at hv
+    obtain ⟨h0, h1, hgh, hk, hkb, hh, hhq, hsb, hbc, hvb, hvr⟩ := hv
+    have hsteps : 1 ≤ jstepsV body := by
+      cases body <;> simp [JVal.isContainer] at hbc <;> simp [jstepsV] <;> omega
+    have hfuel : fuel + jstepsF (.consHdr g0 k g1 o gh h body rest) =
+        ((((fuel + jstepsF rest) + jstepsV body - 1) + 1) + 1 + 1) + 1 := by
+      simp only [jstepsF]; omega
+    rw [hfuel]
+    simp only [jrenderF, List.append_assoc]
+    have hkX : k.quoted = false →
+        StartsBoundary (g1 ++ (o.text ++ (gh ++ (h.text ++ (jrenderV body ++ (jrenderF rest ++ after)))))) := by
+      intro hq
+      rcases hkb hq with he | ⟨c, r, he, hc'⟩
+      · have : o.text ≠ [] := by cases o <;> simp [Op.text]
+        simp at he; exact absurd he.2 this
+      · exact .inr ⟨c, r ++ (gh ++ (h.text ++ (jrenderV body ++ (jrenderF rest ++ after)))), by
+          rw [← List.cons_append, ← he]; simp, hc'⟩
+    rw [run_cont (step_key_scal hst h0 hk hkX)]
+    rw [run_cont (step_kvs_op (by simp) (by simpa using hc.mixed) h1 (head_blank_scal hgh hh _))]
+    -- the header scalar is first read as an ordinary value
+    rw [run_cont (step_val_scal (by simp) hgh hh (fun _ => hsb))]
+    simp only [List.append_assoc, List.cons_append, List.nil_append]
+    -- then Key sees the `{`
+    obtain ⟨gb, X, hrb, hgb, c2, r2, hsk, hc2⟩ := container_head hbc hvb (jrenderF rest ++ after)
+    have htok : h.tok (jrenderV body ++ (jrenderF rest ++ after)) =
+        .unquoted ⟨h.bytes.length + (jrenderV body ++ (jrenderF rest ++ after)).length, h.bytes⟩ := by
+      simp [Scal.tok, hhq]
+    rw [htok, hrb]
+    rw [run_cont (step_key_header (T := st.tape ++ (k.tok (g1 ++ (o.text ++ (gh ++ (h.text ++ (gb ++ 123 :: X))))) :: o.toks))
+      (sl := ⟨h.bytes.length + (gb ++ 123 :: X).length, h.bytes⟩) rfl (by simp) hgb hsk hc2)]
+    rw [← run_skip hsk]
+    -- from here on the parser is where it would be behind the `{` of `body` read as a value
+    have hback := run_cont (n := n) (m := fuel + jstepsF rest + jstepsV body - 1)
+      (step_open (g := gb) (X := X)
+        (st := St.mk .objectValue st.mixed st.parent
+          (st.tape ++ (k.tok (g1 ++ (o.text ++ (gh ++ (h.text ++ (gb ++ 123 :: X))))) :: o.toks) ++
+            [.header ⟨h.bytes.length + (gb ++ 123 :: X).length, h.bytes⟩])) (.inl rfl) hgb)
+    simp only [List.append_assoc, List.cons_append, List.nil_append] at hback ⊢
+    rw [← hback, ← hrb, show fuel + jstepsF rest + jstepsV body - 1 + 1 = (fuel + jstepsF rest) + jstepsV body by omega]
+    have hctx := hc.after_key hst k (g1 ++ (o.text ++ (gh ++ (h.text ++ (jrenderV body ++ (jrenderF rest ++ after))))))
+      (o.toks ++ [.header ⟨h.bytes.length + (jrenderV body ++ (jrenderF rest ++ after)).length, h.bytes⟩])
+      .objectValue rfl
+    rw [jrun_V n body (jrenderF rest ++ after) _ _ hvb (.inl rfl) hctx (by simp)]
+    simp only [ret_ov, List.append_assoc, List.cons_append, List.nil_append]
+    have hctx2 := hc.after_key hst k (g1 ++ (o.text ++ (gh ++ (h.text ++ (jrenderV body ++ (jrenderF rest ++ after))))))
+      (o.toks ++ ([.header ⟨h.bytes.length + (jrenderV body ++ (jrenderF rest ++ after)).length, h.bytes⟩] ++
+        jtapeV body (st.tape ++ k.tok (g1 ++ (o.text ++ (gh ++ (h.text ++ (jrenderV body ++ (jrenderF rest ++ after)))))) ::
+          (o.toks ++ [.header ⟨h.bytes.length + (jrenderV body ++ (jrenderF rest ++ after)).length, h.bytes⟩])).length
+          (jrenderF rest ++ after)))
+      .key rfl
+    simp only [List.append_assoc, List.cons_append, List.nil_append] at hctx2
+    rw [jrun_F n rest after _ _ hvr rfl hctx2]
+    congr 1
+    refine St.ext' hst.symm rfl rfl ?_
+    simp only [jtapeF, List.length_append, List.length_cons, List.length_nil, len_jtapeV, List.append_assoc,
+      List.cons_append, List.nil_append]
+    simp only [Nat.add_assoc, Nat.add_comm, Nat.add_left_comm, Nat.zero_add]
 theorem jrun_Vs (n : Nat) : ∀ (vs : JVals) (after : Bytes) (fuel : Nat) (st : St),
     JValidVs vs after → st.state = .arrayValue → Ctx3 st → st.tape ≠ [] →
     run n (fuel + jstepsVs vs) st (jrenderVs vs ++ after) =
@@ -565,6 +682,12 @@ theorem jstepsV_le : ∀ (v : JVal) (a : Bytes), JValidV v a → jstepsV v ≤ 2
     have h3 := jstepsV_le first _ hv.2.2.2.1
     have h4 := jstepsVs_le rest _ hv.2.2.2.2
     simp only [jstepsV, jrenderV, List.length_append, List.length_cons, List.length_nil]; omega
+  | .ghostIn g b1 b2 v, a, hv => by
+    simp only [JValidV] at hv
+    have h3 := jstepsV_le v _ hv.2.2.2.2.2
+    have h4 : (jrenderV v).length = 1 + (jinner v).length := by
+      rw [render_inner hv.2.2.2.1, hv.2.2.2.2.1]; simp; omega
+    simp only [jstepsV, jrenderV, List.length_append, List.length_cons]; omega
 theorem jstepsF_le : ∀ (fs : JFields) (a : Bytes), JValidF fs a → jstepsF fs ≤ 2 * (jrenderF fs).length
   | .nil, _, _ => by simp [jstepsF]
   | .cons g0 k g1 o v rest, a, hv => by
@@ -586,6 +709,15 @@ theorem jstepsF_le : ∀ (fs : JFields) (a : Bytes), JValidF fs a → jstepsF fs
     simp only [JValidF] at hv
     have h4 := jstepsF_le rest _ hv.2.2
     simp only [jstepsF, jrenderF, List.length_append, List.length_cons]; omega
+  | .consHdr g0 k g1 o gh h body rest, a, hv => by
+    simp only [JValidF] at hv
+    obtain ⟨_, _, _, hk, _, hh, _, _, _, hvb, hvr⟩ := hv
+    have h1 := hk.text_pos
+    have h2 := o.text_pos
+    have h5 := hh.text_pos
+    have h3 := jstepsV_le body _ hvb
+    have h4 := jstepsF_le rest _ hvr
+    simp only [jstepsF, jrenderF, List.length_append]; omega
 theorem jstepsVs_le : ∀ (vs : JVals) (a : Bytes), JValidVs vs a → jstepsVs vs ≤ 2 * (jrenderVs vs).length
   | .nil, _, _ => by simp [jstepsVs]
   | .cons v rest, a, hv => by
@@ -623,6 +755,7 @@ theorem kcnt_V : ∀ v : JVal, kcntV (kcontentV v) = jcntV v
     simp only [kcontentV, kcntV, kcntVs, jcntV, kcnt_Vs rest]; omega
   | .arrC _ first rest _ => by
     simp only [kcontentV, kcntV, kcntVs, jcntV, kcnt_V first, kcnt_Vs rest]; omega
+  | .ghostIn _ _ _ v => by simp only [kcontentV, jcntV, kcnt_V v]
 theorem kcnt_F : ∀ fs : JFields, kcntF (kcontentF fs) = jcntF fs
   | .nil => rfl
   | .cons _ _ _ o v rest => by simp only [kcontentF, kcntF, jcntF, kcnt_V v, kcnt_F rest]
@@ -630,6 +763,8 @@ theorem kcnt_F : ∀ fs : JFields, kcntF (kcontentF fs) = jcntF fs
     simp only [kcontentF, kcntF, jcntF, kcnt_V v, kcnt_F rest, Op.toks, List.length_nil]
     try omega
   | .ghost _ _ rest => by simp only [kcontentF, jcntF, kcnt_F rest]
+  | .consHdr _ _ _ o _ _ body rest => by
+    simp only [kcontentF, kcntF, kcntV, jcntF, kcnt_V body, kcnt_F rest]
 theorem kcnt_Vs : ∀ vs : JVals, kcntVs (kcontentVs vs) = jcntVs vs
   | .nil => rfl
   | .cons v rest => by simp only [kcontentVs, kcntVs, jcntVs, kcnt_V v, kcnt_Vs rest]
@@ -659,6 +794,7 @@ theorem jtapeV_erase : ∀ (v : JVal) (b : Nat) (a : Bytes),
       jtapeV_erase first, jtapeVs_erase rest, kcnt_V, kcnt_Vs,
       erase_array, erase_endTok, List.append_assoc, List.cons_append, List.nil_append]
     simp only [Nat.add_assoc, Nat.add_comm, Nat.add_left_comm]
+  | .ghostIn _ _ _ v, b, a => by simp only [jtapeV, kcontentV, jtapeV_erase v]
 theorem jtapeF_erase : ∀ (fs : JFields) (b : Nat) (a : Bytes),
     (jtapeF fs b a).map Tok.erase = ktapeF (kcontentF fs) b
   | .nil, _, _ => rfl
@@ -671,6 +807,11 @@ theorem jtapeF_erase : ∀ (fs : JFields) (b : Nat) (a : Bytes),
       Scal.tok_erase k, jtapeV_erase v, jtapeF_erase rest, kcnt_V, Op.toks, List.length_nil,
       List.append_assoc, List.cons_append, List.nil_append, List.append_nil, Nat.add_zero]
   | .ghost _ _ rest, b, a => by simp only [jtapeF, kcontentF, jtapeF_erase rest]
+  | .consHdr _ k g1 o gh h body rest, b, a => by
+    have he : ∀ sl : Slice, (Tok.header sl).erase = Tok.header ⟨0, sl.bytes⟩ := fun _ => rfl
+    simp only [jtapeF, kcontentF, ktapeF, ktapeV, kcntV, List.map_append, List.map_cons, List.map_nil,
+      Scal.tok_erase k, Op.toks_erase, jtapeV_erase body, jtapeF_erase rest, kcnt_V, he,
+      List.append_assoc, List.cons_append, List.nil_append]
 theorem jtapeVs_erase : ∀ (vs : JVals) (b : Nat) (a : Bytes),
     (jtapeVs vs b a).map Tok.erase = ktapeVs (kcontentVs vs) b
   | .nil, _, _ => rfl
@@ -734,5 +875,44 @@ theorem exampleTree_valid :
       fun _ => hb 61 (by decide +kernel) _, .nil, .nil, .nil, .nil, .nil,
       u 120 (by decide +kernel) (by decide +kernel) (by decide) (by decide),
       fun _ => hb 125 (by decide +kernel) _, peek_concrete (d := [125, 125, 10]) (by decide +kernel) (by decide +kernel)⟩
+
+/-- C01_faithful, BOM in front of a structured document (fragment 3): the tape is the tape of
+the document, positions included, and the BOM flag is set. -/
+theorem parse_tree_bom (fs : JFields) (gt : Bytes) (hgt : Blank gt) (hv : JValidF fs gt)
+    (hb : hasBom (jrenderF fs ++ gt) = false) :
+    parse (0xef :: 0xbb :: 0xbf :: (jrenderF fs ++ gt)) = .ok (jtapeF fs 0 gt) true := by
+  rw [parse_bom' _ hb, parse_tree fs gt hgt hv hb]; rfl
+
+/-- `c=rgb{1 2} g={{} x}` + newline: a header and a ghost `{}` at the start of a container. -/
+def exampleHdr : JFields :=
+  .consHdr [] ⟨false, [99]⟩ [] .eq [] ⟨false, [114, 103, 98]⟩
+    (.arrS [] [] ⟨false, [49]⟩ (.cons (.scal [32] ⟨false, [50]⟩) .nil) [])
+    (.cons [32] ⟨false, [103]⟩ [] .eq
+      (.ghostIn [] [] [] (.arrS [] [32] ⟨false, [120]⟩ .nil [])) .nil)
+
+example : parse (jrenderF exampleHdr ++ [10]) = .ok (jtapeF exampleHdr 0 [10]) false := by
+  decide +kernel
+
+theorem exampleHdr_valid :
+    JValidF exampleHdr [10] ∧ Blank [10] ∧ hasBom (jrenderF exampleHdr ++ [10]) = false := by
+  have hb : ∀ c : UInt8, isBoundary c = true → ∀ r, StartsBoundary (c :: r) := fun c h r => .inr ⟨c, r, rfl, h⟩
+  have sp : Blank [32] := .ws 32 [] (by decide +kernel) .nil
+  have u := unq_valid
+  refine ⟨?_, .ws 10 [] (by decide +kernel) .nil, by decide +kernel⟩
+  simp only [exampleHdr, JValidF, JValidV, JValidVs, jrenderF, jrenderV, jrenderVs, jinner, Op.text, Scal.text,
+    JVal.isContainer, JVal.isBraced, JVal.gap, List.nil_append, List.append_nil, and_true, true_and]
+  refine ⟨.nil, .nil, .nil, u 99 (by decide +kernel) (by decide +kernel) (by decide) (by decide),
+    fun _ => hb 61 (by decide +kernel) _, ?_, hb 123 (by decide +kernel) _, ?_, ?_⟩
+  · simp only [Scal.Valid, Bool.false_eq_true, if_false]
+    exact ⟨by decide +kernel, 114, [103, 98], rfl, by decide +kernel, by decide, by decide⟩
+  · exact ⟨.nil, .nil, .nil, u 49 (by decide +kernel) (by decide +kernel) (by decide) (by decide),
+      fun _ => hb 32 (by decide +kernel) _,
+      peek_concrete (d := [50, 125, 32, 103, 61, 123, 123, 125, 32, 120, 125, 10]) (by decide +kernel) (by decide +kernel),
+      ⟨sp, u 50 (by decide +kernel) (by decide +kernel) (by decide) (by decide), fun _ => hb 125 (by decide +kernel) _⟩⟩
+  · exact ⟨sp, .nil, u 103 (by decide +kernel) (by decide +kernel) (by decide) (by decide),
+      fun _ => hb 61 (by decide +kernel) _, .nil, .nil, .nil, .nil, sp, .nil,
+      u 120 (by decide +kernel) (by decide +kernel) (by decide) (by decide),
+      fun _ => hb 125 (by decide +kernel) _,
+      peek_concrete (d := [125, 10]) (by decide +kernel) (by decide +kernel)⟩
 
 end Jomini.TextTape
